@@ -294,7 +294,7 @@ def ic_static_link(model, res):
             res.evaluations += 1
             res.nontrivial += 1
             checked += 1
-            if got is not NAN and want is not NAN and got.key() == want.key():
+            if got is not NAN and want is not NAN and ev.equal(got, want):
                 res.discharged += 1
                 res.sample({'rule': 'C14.ic-static-link', 'case': callee.name, 'identity': '%s == %s - static(%s)'
                             % (label, 'TL' if label == 'Ta' else 'TR', end), 'normal_form': got.key()[:120]}, limit=30)
@@ -336,7 +336,7 @@ def sibling_norm(model, res):
     res.obligations += 1
     res.evaluations += 1
     res.nontrivial += 1
-    if got is not NAN and want is not NAN and got.key() == want.key():
+    if got is not NAN and want is not NAN and ev.equal(got, want):
         res.discharged += 1
     else:
         res.add(Finding(PROP, 'C14.sibling-norm', runm.module.relpath, runm.qualname, 'in-line Anm differs from Anm_analytic',
